@@ -36,6 +36,8 @@ def population(hv, tier, sd, pops, per_pop):
             got = exhaustive_cases(n)
         elif pop == "K":
             got = movers(random.Random(sd * 31 + 5), n)
+        elif pop == "P":
+            got = long_runs(random.Random(sd * 37 + 3), n)
         else:
             got = bf.gen_cases(hv, pop, sd, n)
         cases += got
@@ -51,6 +53,30 @@ def population(hv, tier, sd, pops, per_pop):
                 c["w"] = rng.choice([8, 8, 16, 32, 64])
         c["id"] = "%s%d" % (c["pop"], i)
         out.append(c)
+    return out
+
+
+def long_runs(rng, n):
+    """Population P: uninterrupted runs of 255..1100 identical + - > < characters (an interpreter that
+    folds runs must fold them modulo 2^width, not modulo 256), with the bits above the low byte made
+    observable through a zero test."""
+    out = []
+    lens = [255, 256, 257, 300, 511, 512, 513, 768, 1024, 1100]
+    for _ in range(n):
+        k = rng.choice(lens)
+        form = rng.randrange(5)
+        test = "[>+.<[-]]>."                     # prints 1 if the cell is non-zero, then cell+1 either way
+        if form == 0:
+            prog = "+" * k + test
+        elif form == 1:
+            prog = "-" * k + "+" * k + test
+        elif form == 2:
+            prog = "-" * k + "+" * (k - rng.choice([1, 2, 256])) + "+" * rng.choice([0, 1, 2]) + ".[[-]>+.<]>."
+        elif form == 3:
+            prog = ">" * k + "+." + "<" * k + ",." + ">" * k + "."
+        else:
+            prog = "," + "+" * k + "." + test
+        out.append({"pop": "P", "prog": prog, "input": [rng.choice([0, 1, 200, 255])]})
     return out
 
 
@@ -663,10 +689,10 @@ def _offsets(body):
 
 
 def c04(tier):
-    per = {"E": 40000, "rnd": 1200, "S": 1200, "T": 300, "R": 300, "M": 600} if tier == "quick" else \
-          {"E": 300000, "rnd": 20000, "S": 20000, "T": 3000, "R": 400, "M": 8000, "N": 2000}
+    per = {"E": 40000, "rnd": 1200, "S": 1200, "T": 300, "R": 300, "M": 600, "P": 120} if tier == "quick" else \
+          {"E": 300000, "rnd": 20000, "S": 20000, "T": 3000, "R": 400, "M": 8000, "N": 2000, "P": 2000}
     return run_equivalence("C04", tier, lambda c: [{"backend": "inplace", "level": 0}],
-                           ["E", "rnd", "S", "T", "R", "M", "N"], per,
+                           ["E", "rnd", "S", "T", "R", "M", "N", "P"], per,
                            adjudicate_max=3000 if tier == "quick" else 400000, before=design_check_bf,
                            comment_share=0.08)
 
@@ -674,33 +700,33 @@ def c04(tier):
 def c01(tier):
     levels = [0, 1, 2, 3, 4, 7]
     per = {"E": 6000, "rnd": 3000, "S": 6000, "R": 300, "M": 2000, "N": 500, "L": 1500, "G": 1500, "I": 400,
-           "W": 600} if tier == "quick" else \
+           "W": 600, "P": 40} if tier == "quick" else \
         {"E": 60000, "rnd": 60000, "S": 150000, "R": 400, "M": 40000, "N": 10000, "L": 40000, "G": 30000, "I": 8000,
-         "W": 12000}
+         "W": 12000, "P": 800}
     return run_equivalence("C01", tier, lambda c: [{"backend": "irint", "level": l} for l in levels],
-                           ["E", "rnd", "S", "R", "M", "N", "L", "G", "I", "W"], per,
+                           ["E", "rnd", "S", "R", "M", "N", "L", "G", "I", "W", "P"], per,
                            adjudicate_max=2500 if tier == "quick" else 80000, comment_share=0.02,
                            heavy=150 if tier == "quick" else 3000)
 
 
 def c02(tier):
     per = {"E": 6000, "rnd": 2000, "S": 4000, "R": 300, "M": 1500, "N": 800, "T": 200, "L": 1500, "I": 600, "G": 600,
-           "W": 2500} if tier == "quick" else \
+           "W": 2500, "P": 40} if tier == "quick" else \
         {"E": 60000, "rnd": 40000, "S": 100000, "R": 400, "M": 30000, "N": 20000, "T": 2000, "L": 40000, "I": 12000,
-         "G": 12000, "W": 8000}
+         "G": 12000, "W": 8000, "P": 800}
     return run_equivalence("C02", tier, lambda c: [{"backend": "bcint", "level": l} for l in range(4)],
-                           ["E", "rnd", "S", "R", "M", "N", "T", "L", "I", "G", "W"], per, profiles=("release", "debug"),
+                           ["E", "rnd", "S", "R", "M", "N", "T", "L", "I", "G", "W", "P"], per, profiles=("release", "debug"),
                            adjudicate_max=5000 if tier == "quick" else 120000, comment_share=0.02,
                            heavy=150 if tier == "quick" else 3000)
 
 
 def c03(tier):
     per = {"E": 6000, "rnd": 2000, "S": 4000, "R": 300, "M": 1500, "N": 2500, "T": 200, "L": 8000, "I": 600, "G": 600,
-           "W": 2500} if tier == "quick" else \
+           "W": 2500, "P": 40} if tier == "quick" else \
         {"E": 60000, "rnd": 40000, "S": 100000, "R": 400, "M": 30000, "N": 60000, "T": 2000, "L": 120000, "I": 12000,
-         "G": 12000, "W": 8000}
+         "G": 12000, "W": 8000, "P": 800}
     return run_equivalence("C03", tier, lambda c: [{"backend": "jit", "level": l} for l in range(4)],
-                           ["E", "rnd", "S", "R", "M", "N", "T", "L", "I", "G", "W"], per,
+                           ["E", "rnd", "S", "R", "M", "N", "T", "L", "I", "G", "W", "P"], per,
                            adjudicate_max=2500 if tier == "quick" else 80000, comment_share=0.02,
                            heavy=300 if tier == "quick" else 6000)
 
